@@ -98,7 +98,7 @@ func (Engine) Shrink(sci interface{}) []interface{} {
 
 func (Engine) Describe() harness.EngineInfo {
 	return harness.EngineInfo{
-		Rule:        "history = 3-12 caller operations over up to 4 live producers: create (generator function with try/finally and return value, user iterator class, iterable class, yield-from delegator, map/filter/genexp/zip/enumerate wrapper over an earlier producer, built-in list/range/tuple/str iterators), next, send, or one of 31 consumers (for, for+break+else, nested for, comprehensions, genexp, tuple/starred unpacking, star-call, list tuple set frozenset sum min max sorted zip map filter enumerate any all, in / not in, str.join, dict(zip)); producers fail at a seeded item with a seeded exception (class or instance) or end by raising StopIteration as class, instance or instance with value; every producer is probed twice after the history (exhausted stays exhausted). distinct = distinct program sources; non-trivial = at least one consumer applied or a producer that fails",
+		Rule:        "history = 3-12 caller operations over up to 4 live producers: create (generator function with try/finally and return value, user iterator class, iterable class, yield-from delegator, map/filter/genexp/zip/enumerate wrapper over an earlier producer, built-in list/range/tuple/str iterators), next, send, or one of 31 consumers (for, for+break+else, nested for, comprehensions, genexp, tuple/starred unpacking, star-call, list tuple set frozenset sum min max sorted zip map filter enumerate any all, in / not in, str.join, dict(zip)); producers fail at a seeded item with a seeded exception (class or instance) or end by raising StopIteration as class, instance or instance with value; every producer is probed twice after the history (exhausted stays exhausted). distinct = distinct program sources; non-trivial = at least one consumer applied or a producer that fails; also generator functions with a seeded RANDOM body (yields in statement and in operand position - half-built lists, calls, dicts, tuples pending across the suspension -, inside for/while loops, try/finally with and without a yield in the finally block, except handlers with a bare re-raise after the yield, with blocks, yield-from and for-loop delegation to inner generators, break / continue / return through pending finally blocks, one optional raise) in which a helper called by the body may resume THE RUNNING generator (next / send in operand position, for / list over itself: ValueError, pending operands untouched)",
 		Real:        []string{"py.Generator / vm frames (suspend, resume, send, yield from, return value)", "vm FOR_ITER, UNPACK_*, CALL_FUNCTION_VAR", "py.Iterate / py.Next / sequence helpers", "builtin consumers (stdlib/builtin, py/zip.go, py/map.go, py/filter.go, py/enumerate.go)"},
 		Stubbed:     []string{"the caller deciding which suspended generator resumes next and with which value -> seeded history", "the failing producer -> seeded fail position / exception", "reference semantics -> CPython 3.11 running the same history", "Go map iteration order -> simulator"},
 		Assumptions: []string{"generator bodies never let StopIteration escape from inside a generator frame (PEP 479 changed that after 3.4); StopIteration is raised by iterator classes only", "only built-in exception classes are raised (user-defined exception subclasses cannot be instantiated in this tree); generator.throw/close are not part of the property", "observations are ints, strs, bools, None, lists/tuples of those, exception class names and StopIteration.args"},
